@@ -262,3 +262,11 @@ Proof.
   induction (rt_relay_zones c lz target) as [|z l IH]; simpl; [reflexivity|].
   rewrite IH. f_equal. apply rt_zone_loop_replay. intros _. assumption.
 Qed.
+
+(* the bound of rt_log_char is tight: with two other endpoints in the local zone, one connected and one not,
+   the persist decision depends on the iteration order (log_done is whatever the LAST iterated peer says) *)
+Lemma rt_log_three_endpoints_order_dependent :
+  let c := [{| rt_zparent := None; rt_zglobal := false; rt_zeps := [1; 2; 3] |}] in
+  rt_persist (rt_relay c 1 0 [3] rt_no_origin (fun _ => [1; 2; 3]) 0 true) = false /\
+  rt_persist (rt_relay c 1 0 [3] rt_no_origin (fun _ => [1; 3; 2]) 0 true) = true.
+Proof. split; reflexivity. Qed.
